@@ -271,11 +271,18 @@ class LinearEinsum(LinearOperator):
         iss, oss, *_ = subscripts.split("->")
         iss_spl = iss.split(",")
 
+        # Indices of the input that are summed over without appearing anywhere
+        # else cannot be produced by einsum in the adjoint direction: leave
+        # them out there and broadcast along them afterwards.
+        avail = set(oss).union(*iss_spl[:-1])
+        self._adj_bcast = tuple(i for i, c in enumerate(iss_spl[-1])
+                                if c not in avail)
+        adj_oss = "".join(c for c in iss_spl[-1] if c in avail)
         if len(iss_spl) == 1:
-            self._adj_sscr = "->".join((oss, iss))
+            self._adj_sscr = "->".join((oss, adj_oss))
         else:
             adj_iss = ",".join((",".join(iss_spl[:-1]), oss))
-            self._adj_sscr = "->".join((adj_iss, iss_spl[-1]))
+            self._adj_sscr = "->".join((adj_iss, adj_oss))
         self._capability = self.TIMES | self.ADJOINT_TIMES
 
     def _device_preparation(self, x, mode):
@@ -292,4 +299,7 @@ class LinearEinsum(LinearOperator):
             ss, *(mf[k].val for k in self._key_order), x.val,
             **self._ein_kw
         )
+        if mode != self.TIMES and len(self._adj_bcast) > 0:
+            res = np.expand_dims(res, self._adj_bcast)
+            res = np.broadcast_to(res, dom.shape)
         return Field.from_raw(dom, res)
